@@ -396,3 +396,4 @@ RULES = [
 
 from . import common as _common_purity
 RULES = RULES + _common_purity.purity_rules("C12")
+RULES = RULES + _common_purity.bundle_rules("C12")
